@@ -39,7 +39,14 @@ caching run are, operation by operation, a sub-list of those of the non-caching 
 (C09_imgiter_cached_requests_sub).  The SOURCE KIND is a dimension of the generator: a PIL image decoded
 from bytes, a PIL image the caller opened from a file, a file path (the iterator holds an open image of
 its own) and a URL (temp file), GIF and WebP, crossed with WHERE the image size changes: in the first
-loop, and in the later, cached loops after the first loop rendered every frame (`late_case`)."""
+loop, and in the later, cached loops after the first loop rendered every frame (`late_case`).
+
+Round 9: every image pair is judged by model/ImgIterRszTie.v [check9e]: the history is given as changes of
+the size SETTING (fixed / a Size member) and of the ENVIRONMENT env3 = (terminal size, cell ratio, cell
+size), the rendered size under (setting, environment) is the observed table, the model runs on the history
+lowered through it.  `env_case` / `env_corpus`: in a cached loop one component of the environment changes
+alone under a dynamic setting, or the setting changes KIND (fixed <-> dynamic, member -> member) and the
+environment changes some frames later."""
 from __future__ import annotations
 
 import copy
@@ -629,8 +636,12 @@ def run(ctx):
                 "URL (temp file)} x {GIF, WebP} x 3 styles x format specifiers; random histories, size patterns "
                 "A/B/A per pass, and histories whose FIRST LOOP COMPLETES with every frame cached before the size "
                 "changes in a later loop (late_case: 0-2 passes served from the cache, then A -> B (-> A / C), seeks, "
-                "a frame whose rendering fails at B); judged in Coq (check9i) on outcomes AND on the render "
-                "requests (frame, size) of every operation.",
+                "a frame whose rendering fails at B); judged in Coq (check9e = check9i on the history lowered from "
+                "setting / environment changes through the observed rendered-size table) on outcomes AND on the render "
+                "requests (frame, size) of every operation.  ENVIRONMENT x SETTING KIND (env_case): after the first loop "
+                "filled the cache, in a cached loop one of terminal size / cell ratio / cell size changes alone under a "
+                "dynamic setting, or the setting changes kind (fixed <-> dynamic, member -> member) and the environment "
+                "changes some frames later; frames cached since are revisited.",
         "samples": [base.describe(c) for c in cases[:2] + cases[len(CORPUS):len(CORPUS) + 2] + cases[-2:]],
         "histogram": hist,
         "mismatches": mismatches,
@@ -654,6 +665,13 @@ def run(ctx):
             "theorems (source_erased, kept_source_transparent) assume a source whose renders, while its invariant "
             "holds, are that pure function; the ImgIter model is tied to the code by C11's correspondence and by "
             "check9i here",
+            "image iterator half, round 9: the rendered size is rsize(setting, env3 = terminal size, cell ratio, cell "
+            "size); the resolution of a dynamic size is a Section variable (C04); that nothing else enters the rendered "
+            "size is validated per pair (the observed table must be a function).  The theorems take a frame to be a "
+            "function of (frame number, rendered size): for graphics-based styles the cell size also enters the frame "
+            "itself (pixel size of the render) - KNOWN FINDING C09_imgiter_cell_size_only_change_refuted, "
+            "pending_fixes/C09_imageiterator_cache_cell_size.diff; pairs in which the cell size changed under an "
+            "unchanged rendered size AND the runs differ are counted in the summary, not reported",
         ],
         "trusted": ["impl driver (impl_c09_iter.py = impl_c08.py, shared with C08, plus list-valued argument fields): "
                     "call stamps written into the render output identify the _render_ invocation that produced a "
@@ -663,7 +681,8 @@ def run(ctx):
                     "impl_c09_img.py: render requests are observed by wrapping the instance's _render_image (frame = "
                     "_seek_position, size = rendered_size at the call); the renderer table handed to the model is what the "
                     "NON-caching run obtained; opened / closed PIL images are counted by wrapping Image.open / Image.close; "
-                    "from_url is served by a stub of requests.get"],
+                    "from_url is served by a stub of requests.get; the environment is changed by patching "
+                    "common.get_terminal_size, term_image.set_cell_ratio() and the test-suite's get_cell_size stub"],
     }
 
 
@@ -756,15 +775,19 @@ def late_case(rng, i):
 # the ENVIRONMENT of a rendered size (round 9): terminal size, cell ratio, cell size; and the KIND of the setting
 ENV_TERMS = [[40, 12], [30, 8], [24, 10], [50, 9]]
 ENV_RATIOS = [[1, 2], [1, 1], [1, 4], [3, 4]]
-ENV_CELLS = [[10, 20], [5, 20], [8, 16], [4, 8]]
+ENV_CELLS = [[10, 20], [5, 20], [3, 4], [6, 6]]  # pairwise different aspect ratios: a dynamic size moves with them
 ENV_MEMBERS = ["FIT", "FIT_TO_WIDTH", "ORIGINAL", "AUTO"]
 ENV0 = {"term": [80, 30], "ratio": [1, 2], "cell": [10, 20]}
 
 
-def env_change(rng, style, env, which=None):
-    """one component of the environment changes, alone; mostly a component the style's sizes depend on"""
-    own = "ratio" if style == "block" else "cell"
-    comp = which or rng.choices([own, "term", "cell" if own == "ratio" else "ratio"], [5, 3, 1])[0]
+def env_change(rng, style, env, g=None):
+    """one component of the environment changes, alone; mostly a component the rendered size of the style and
+    of the setting in force [g] depends on (a fixed size depends on none: rarely, as a negative case)"""
+    own, other = ("ratio", "cell") if style == "block" else ("cell", "ratio")
+    dyn = g is None or g[0] == "D"
+    frame_bound = dyn and (g is None or g[1] in ("FIT", "FIT_TO_WIDTH"))
+    # graphics style + fixed size + cell-size change = the known finding (pixel size of the render): kept rare
+    comp = rng.choices([own, "term", other], [5 if dyn else 0.6, 3 if frame_bound else 0.5, 0.4])[0]
     pool = {"term": ENV_TERMS, "ratio": ENV_RATIOS, "cell": ENV_CELLS}[comp]
     v = rng.choice([x for x in pool if x != env[comp]])
     env[comp] = v
@@ -790,35 +813,37 @@ def env_case(rng, i):
     c = {"frames": n, "repeat": rng.choice([-1, -1, 6, 8]), "style": style, "cached": rng.choice([True, True, n, n + 1]),
          "term0": env["term"]}
     mode = rng.choice(["env", "kind", "kind", "mixed"])
-    g = ["D", rng.choice(ENV_MEMBERS)] if mode == "env" or rng.random() < 0.3 else ["F", rng.choice([3, 4, 6, 8])]
+    g = ["D", rng.choice(ENV_MEMBERS)] if mode == "env" or rng.random() < 0.2 else ["F", rng.choice([3, 4, 6, 8])]
     c["size0"] = g
     ops = [["next"]] * n + [["next"]] * rng.randint(0, n)
     nexts = lambda lo, hi: [["next"]] * rng.randint(lo, hi)
     if mode == "env":
         for _ in range(rng.randint(1, 2)):
-            ops += [env_change(rng, style, env)] + nexts(1, 2 * n)
+            ops += [env_change(rng, style, env, g)] + nexts(1, 2 * n)
     elif mode == "kind":
         o, g = setting_change(rng, g)
         ops += [o] + nexts(1, n + 1)
         if rng.random() < 0.25:
             o, g = setting_change(rng, g)
             ops += [o] + nexts(1, n)
-        ops += [env_change(rng, style, env)] + nexts(n, 2 * n + 1)
+        ops += [env_change(rng, style, env, g)] + nexts(n, 2 * n + 1)
     else:
         for _ in range(rng.randint(2, 4)):
             if rng.random() < 0.45:
                 o, g = setting_change(rng, g)
                 ops += [o]
             else:
-                ops += [env_change(rng, style, env)]
+                ops += [env_change(rng, style, env, g)]
             ops += nexts(1, n + 1)
             if rng.random() < 0.2:
                 ops += [["seek", rng.randrange(n)], ["next"]]
         ops += nexts(n, n + 1)
     c["ops"] = ops
     if rng.random() < 0.3:
-        c["spec"] = rng.choice(IMG_SPECS[style])
+        c["spec"] = rng.choice(IMG_SPECS[style][:2])
     c["source"], c["fmt"] = rng.choice(["pil", "pil", "file"]), "GIF"
+    if rng.random() < 0.6:  # a source large enough for ORIGINAL / AUTO to differ from one cell under graphics styles
+        c["px"] = [48, 24]
     return c
 
 
@@ -832,12 +857,12 @@ def env_corpus():
     for style, comp, v in [("block", "term", [30, 8]), ("block", "ratio", [1, 1]), ("kitty", "cell", [5, 20]),
                            ("iterm2", "term", [24, 10]), ("kitty", "ratio", [1, 1]), ("block", "cell", [5, 20])]:
         out.append(base(style, ["D", "FIT"], N3 + [[comp, v]] + N5))
-    own = {"block": ["ratio", [1, 1]], "kitty": ["cell", [5, 20]], "iterm2": ["cell", [4, 8]]}
+    own = {"block": ["ratio", [1, 1]], "kitty": ["cell", [5, 20]], "iterm2": ["cell", [6, 6]]}
     for style in IMG_STYLES:
         out.append(base(style, ["F", 4], N3 + [["dsize", "FIT"]] + N3 + [["term", [30, 8]]] + N5))
-        out.append(base(style, ["F", 6], N3 + [["dsize", "ORIGINAL"]] + N3 + [own[style]] + N5))
+        out.append(base(style, ["F", 6], N3 + [["dsize", "ORIGINAL"]] + N3 + [own[style]] + N5, px=[48, 24]))
         out.append(base(style, ["D", "FIT"], N3 + [["size", [5, 0]]] + N3 + [own[style]] + N5))
-        out.append(base(style, ["D", "AUTO"], N3 + [["dsize", "FIT_TO_WIDTH"]] + N3 + [own[style]] + N5, repeat=7, cached=2))
+        out.append(base(style, ["D", "AUTO"], N3 + [["dsize", "FIT_TO_WIDTH"]] + N3 + [own[style]] + N5, repeat=7, cached=2, px=[48, 24]))
     return out
 
 
@@ -1044,7 +1069,7 @@ def img_shrink(c, tag="c09is"):
         out = []
         for k in range(len(c["ops"])):
             out.append(dict(c, ops=c["ops"][:k] + c["ops"][k + 1:]))
-        for key in ("spec", "fail", "dyn", "term0"):
+        for key in ("spec", "fail", "dyn", "term0", "px"):
             if key in c:
                 out.append({k: v for k, v in c.items() if k != key})
         if c["style"] != "block":
